@@ -66,6 +66,7 @@ SIZES = {
     'hist': (12000, 480000),       # x ~8 ops
     'doc': (9000, 360000),         # x ~5 names x ~3 paragraphs
     'raw': (10000, 400000),        # x ~5 names
+    'build': (6000, 240000),       # x ~5 query steps x ~6 names x ~3 paragraphs, + one dump-then-parse per query step
 }
 
 LIT = ['a', 'a', 'a', 'b', 'b', 'c', 'A', '/', '/', '.']
@@ -175,6 +176,162 @@ def gen_names(r, lists, k):
 
 
 # ---------------------------------------------------------------------------
+# build histories (kind 'build')
+
+def escape_literal(name):
+    """The glob that matches exactly `name`."""
+    return ''.join('\\' + ch if ch in '\\*?' else ch for ch in name)
+
+
+def overlapping_list(r, gl, wide):
+    """(pattern list, witness name): a legal list that shares at least the
+    witness name with the legal, whitespace-free list `gl`."""
+    toks = r.choice(gl.toks)
+    s = ''
+    for _ in range(6):
+        s = G.expand(toks, r, LIT)
+        if s:
+            break
+    k = r.random()
+    if not s or k < 0.22:
+        return ['*'], (s or 'a')
+    if k < 0.40:
+        return list(gl.patterns), s
+    lit = escape_literal(s)
+    if k < 0.65:
+        return [lit], s
+    if k < 0.82:
+        pats = [lit, gen_pattern(r, wide, illegal_ok=False)]
+        r.shuffle(pats)
+        return pats, s
+    i = r.randrange(len(s))
+    return [escape_literal(s[:i]) + '*'], s
+
+
+def gen_build_case(r, wide):
+    shape = r.choice(('empty', 'empty', 'sole-first', 'sole-first', 'parsed-tail-license', 'parsed-tail-license',
+                      'random', 'random', 'random'))
+    illegal_ok = r.random() < 0.05
+    realistic = r.random() < 0.15
+    every = r.random() < 0.35          # a full query after every mutating step
+    st = {'ops': [], 'cur': [], 'all': [], 'wit': [], 'nF': 0, 'nL': 0}
+
+    def new_list():
+        if realistic:
+            return r.sample(REAL_POOL, r.choice((1, 2, 3, 4)))
+        return gen_list(r, wide, illegal_ok=illegal_ok)
+
+    def q(force=False, full=False):
+        if force or every or r.random() < 0.55:
+            mask = 7 if (full or every or r.random() < 0.6) else r.choice((1, 2, 3, 6, 7))
+            st['ops'].append(['q', mask])
+
+    def add_f(pats=None, overlap=None):
+        if pats is None:
+            legal = [gl for gl in st['cur'] if gl.legal]
+            if overlap is None:
+                overlap = bool(legal) and r.random() < 0.5
+            if overlap and legal:
+                pats, w = overlapping_list(r, r.choice(legal), wide)
+                st['wit'].append(w)
+            else:
+                pats = new_list()
+        st['nF'] += 1
+        gl = G.GlobList(pats)
+        st['cur'].append(gl)
+        st['all'].append(gl)
+        st['ops'].append(['addF', list(pats), 'n%d' % st['nF']])
+
+    def add_l():
+        st['nL'] += 1
+        st['ops'].append(['addL', 'M%d' % st['nL']])
+
+    def random_paras(nf, tail):
+        paras = []
+        for j in range(nf):
+            if r.random() < 0.3:
+                paras.append({'L': 1})
+            pats = ['*'] if (j == 0 and r.random() < 0.4) else new_list()
+            paras.append({'F': pats, 'sep': r.choice((0, 0, 1, 2))})
+        for _ in range(tail):
+            paras.append({'L': 1})
+        return paras
+
+    def start_with(paras):
+        for p in paras:
+            if 'F' in p:
+                gl = G.GlobList(p['F'])
+                st['cur'].append(gl)
+                st['all'].append(gl)
+        return {'mode': r.choice(('parse', 'parse', 'parse-file')), 'paras': paras}
+
+    start = {'mode': 'empty', 'paras': []}
+    if shape == 'empty':
+        q(force=r.random() < 0.85, full=True)
+        for _ in range(r.choice((0, 0, 1, 2))):
+            add_l()
+            q()
+        for _ in range(r.choice((1, 1, 2, 3))):
+            add_f()
+            q()
+    elif shape == 'sole-first':
+        p0 = ['*'] if r.random() < 0.4 else gen_list(r, wide, illegal_ok=False)
+        nl = r.choice((1, 1, 2, 3))
+        if r.random() < 0.5:
+            start = start_with([{'F': p0, 'sep': r.choice((0, 0, 1, 2))}] + [{'L': 1}] * nl)
+        else:
+            if r.random() < 0.5:
+                q(full=True)
+            add_f(p0)
+            q()
+            for _ in range(nl):
+                add_l()
+                q()
+        q()
+        add_f(overlap=True)
+        q(force=True, full=True)
+    elif shape == 'parsed-tail-license':
+        nf = r.choice((0, 1, 1, 2, 2, 3, 4))
+        start = start_with(random_paras(nf, r.choice((1, 1, 2))))
+        q()
+        for _ in range(r.choice((1, 1, 2, 3))):
+            add_f()
+            q()
+    else:
+        if r.random() < 0.5:
+            start = start_with(random_paras(r.choice((0, 1, 2, 3)), r.choice((0, 0, 1))))
+        q()
+    for _ in range(r.choice((1, 2, 3, 4, 5)) if not wide else r.choice((1, 2, 3, 4, 5, 6, 8))):
+        k = r.random()
+        if k < 0.40:
+            add_f()
+        elif k < 0.55:
+            add_l()
+        elif k < 0.80 and st['cur']:
+            i = r.randrange(len(st['cur']))
+            old = st['cur'][i]
+            if r.random() < 0.5:
+                newp = mutate_same_length(r, old.patterns)
+            else:
+                newp = gen_list(r, wide, illegal_ok=False)
+            gl = G.GlobList(newp)
+            st['cur'][i] = gl
+            st['all'].append(gl)
+            st['ops'].append(['set', i, list(newp)])
+        else:
+            for _ in range(r.choice((2, 2, 3))):      # several adds in a row, nothing observed in between
+                add_f()
+        q()
+    if st['ops'][-1] != ['q', 7]:
+        st['ops'].append(['q', 7])
+    names = gen_names(r, st['all'], 5) if st['all'] else gen_names(r, [G.GlobList(['*'])], 3)
+    for w in st['wit'][-2:]:
+        if w not in names:
+            names.append(w)
+    return {'kind': 'build', 'start': start, 'ops': st['ops'], 'names': names}
+
+
+# ---------------------------------------------------------------------------
 # cases
 
 def _enum_specs(tier):
@@ -263,6 +420,22 @@ def cases(ctx):
             case['reassign'] = [k, newp]
             case['names'] += gen_names(r, [G.GlobList(newp)], 2)
         yield case
+    # -- build histories through the public API (empty / parsed start, adds, re-assignments, queries, dump-then-parse)
+    if ctx.shard == 0:
+        yield {'kind': 'build', 'start': {'mode': 'empty', 'paras': []},
+               'ops': [['q', 7], ['addF', ['*'], 'n1'], ['q', 7], ['addL', 'M1'], ['addL', 'M2'], ['q', 7],
+                       ['addF', ['debian/*'], 'n2'], ['q', 7], ['addF', ['debian/rules'], 'n3'], ['addF', ['*.c'], 'n4'], ['q', 7],
+                       ['set', 0, ['src/*']], ['q', 7]],
+               'names': ['debian/rules', 'debian/x', 'a.c', 'debian/a.c', 'src/a', 'README']}
+        yield {'kind': 'build', 'start': {'mode': 'parse', 'paras': [{'F': ['*'], 'sep': 0}, {'L': 1}, {'L': 1}]},
+               'ops': [['q', 7], ['addF', ['debian/*'], 'n1'], ['q', 7]],
+               'names': ['debian/rules', 'README']}
+        yield {'kind': 'build', 'start': {'mode': 'parse-file', 'paras': [{'L': 1}, {'L': 1}]},
+               'ops': [['q', 2], ['addF', ['a*'], 'n1'], ['addF', ['a?'], 'n2'], ['q', 7]],
+               'names': ['ab', 'abc', 'b']}
+    r = ctx.rng('build')
+    for i in range(ctx.size(*SIZES['build'])):
+        yield gen_build_case(r, wide)
     # -- raw pattern lists (whitespace / newlines) through globs_to_re
     r = ctx.rng('raw')
     for i in range(ctx.size(*SIZES['raw'])):
@@ -532,14 +705,23 @@ def build_doc(case):
     return cp.Copyright(text.splitlines(True))
 
 
-def doc_queries(ctx, case, c, fps, lists, names, earlier_by_idx, phase):
+def doc_queries(ctx, case, c, fps, lists, names, earlier_by_idx, phase, small_of=None, mon='M.find', cnt='find'):
+    """find_files_paragraph(name) and every paragraph's matches(name) for each
+    name, judged against `lists` (the pattern lists of the document's Files
+    paragraphs in document order; `fps` are the live objects in that order).
+    Returns one entry per name: ('value', index | None | _MISS) /
+    ('format-error', msg) / ('other-error', msg)."""
     from debian import copyright as cp
     any_illegal = any(not gl.legal for gl in lists)
+    results = []
     for name in names:
-        small = dict(case)
-        small['names'] = [name]
-        if not phase:
-            small.pop('reassign', None)
+        if small_of is not None:
+            small = small_of(name)
+        else:
+            small = dict(case)
+            small['names'] = [name]
+            if not phase:
+                small.pop('reassign', None)
         # --- find_files_paragraph first (cold caches on the first name)
         try:
             res = ('value', c.find_files_paragraph(name))
@@ -547,6 +729,7 @@ def doc_queries(ctx, case, c, fps, lists, names, earlier_by_idx, phase):
             res = ('format-error', str(e))
         except Exception as e:
             res = ('other-error', '%s: %s' % (type(e).__name__, e))
+        results.append(res if res[0] != 'value' else ('value', _index_of(fps, res[1])))
         # --- every paragraph's own matches()
         lib, keys = [], []
         for k, (p, gl) in enumerate(zip(fps, lists)):
@@ -556,11 +739,11 @@ def doc_queries(ctx, case, c, fps, lists, names, earlier_by_idx, phase):
                 keys.append(key)
         ctx.count('op:find%s' % phase)
         if res[0] == 'other-error':
-            ctx.mon('M.find')
+            ctx.mon(mon)
             ctx.violation('find-raises-unexpected-exception', 'find_files_paragraph(%r) raised %s' % (name, res[1]), small)
             continue
         if any_illegal:
-            ctx.mon('M.find-illegal')
+            ctx.mon(mon + '-illegal')
             if res[0] == 'format-error':
                 continue
             # accepted only if it is the correct last match and nothing illegal follows it
@@ -572,15 +755,15 @@ def doc_queries(ctx, case, c, fps, lists, names, earlier_by_idx, phase):
                               'find_files_paragraph(%r) returned paragraph #%r without reporting it'
                               % ([gl.illegal for gl in lists if not gl.legal], name, got_idx), small)
             continue
-        ctx.mon('M.find')
+        ctx.mon(mon)
         hits = [k for k, gl in enumerate(lists) if gl.matches(name)]
         want_idx = hits[-1] if hits else None
         if len(hits) >= 2:
-            ctx.count('find:several-paragraphs-match')
+            ctx.count(cnt + ':several-paragraphs-match')
         elif hits:
-            ctx.count('find:one-paragraph-matches')
+            ctx.count(cnt + ':one-paragraph-matches')
         else:
-            ctx.count('find:none-matches')
+            ctx.count(cnt + ':none-matches')
         if res[0] == 'format-error':
             ctx.violation('legal-pattern-rejected-as-format-error', 'find_files_paragraph(%r) raised '
                           'MachineReadableFormatError(%s) although every glob is legal' % (name, res[1]), small)
@@ -604,6 +787,7 @@ def doc_queries(ctx, case, c, fps, lists, names, earlier_by_idx, phase):
         ctx.violation(key, 'find_files_paragraph(%r): got Files paragraph #%s, want #%s (the last one whose globs match); '
                       'pattern lists in document order: %r' % (name, 'foreign' if got_idx is _MISS else got_idx, want_idx,
                                                               [gl.patterns for gl in lists]), small)
+    return results
 
 
 def _index_of(fps, obj):
